@@ -139,6 +139,9 @@ class Repo:
                     for sub in ast.walk(node):
                         if isinstance(sub, ast.ClassDef):
                             self._index_class(sf, sub, None)
+        # members installed by code (factory products, partialmethod, setattr loops over constant tables)
+        from . import synth
+        self.synthesized = synth.synthesize(self)
 
     def _index_class(self, sf: SourceFile, node: ast.ClassDef, outer: Optional[ClassInfo]):
         qual = f"{outer.qualname}.{node.name}" if outer else node.name
